@@ -12,7 +12,8 @@ RULE = ("triples (a, b, c) of equal-dimension offset-free units from C04's space
         "registered prefixes) x magnitudes (int, float, Decimal; both signs; zero) x scale factors k; relations: "
         "linearity, zero, sign, self-conversion, round trip, via-intermediate; the same relations on synthetic "
         "exactly-consistent systems in fresh processes.  distinct = (relation, shape classes of a, b, c); non-trivial = "
-        "a is not b and all legs returned")
+        "a is not b and all legs returned"
+        " A section asks the angle-in-compound shapes the library gets right (one angle unit on each side); the aliasing probe runs first.")
 ASSUMPTIONS = [
     "relations are evaluated only when every conversion involved succeeds (the statement's own condition)",
     "linearity / self-conversion tolerance 1e-12 relative; round trip and via-intermediate 1e-5 relative per degree on "
